@@ -120,7 +120,11 @@ def is_prim(x):
                                        types.BuiltinFunctionType, types.MethodType, range))
 
 
-FIXED_NAMES = ["_annotations", "_item_list", "_item_set", "target", "is_attribute", "_value", "_taxa"]
+FIXED_NAMES = ["_annotations", "_item_list", "_item_set", "target", "is_attribute", "_value", "_taxa",
+               # second wave (Model/C12Shallow.v): attribute names of the shallow-copy templates, prim ids 10..20
+               "_label", "_taxon_namespace", "automigrate_taxon_namespace_on_assignment", "tree_type", "_trees",
+               "comments", "_taxon_sequence_map", "character_types", "character_subsets", "state_alphabets",
+               "_default_state_alphabet"]
 INT_BASE = 1000          # prim id of the int n (0 <= n < INT_LIMIT) is INT_BASE + n
 INT_LIMIT = 1 << 20
 OTHER_BASE = INT_BASE + INT_LIMIT
